@@ -26,7 +26,7 @@ def items(ctx):
             t = [rng.choice((0, 1, 2, 3, 4, 6, 8)) for _k in range(n)]
             arrays.append((t, [2, 3] if n == 6 and rng.random() < 0.5 else [n]))
     for (D, shape) in arrays:
-        if q and len(D) > 1 and rng.random() > 0.35:
+        if q and len(D) > 1 and rng.random() > 0.8:
             continue
         calls = []
         for m in ("exponential", "gaussian", "reciprocal", "reverse"):
